@@ -35,66 +35,80 @@ fn expected_footer_hash(fields: &[u8]) -> [u8; 16] {
     md5_model(&inp)
 }
 
-// ---- footer value: is_valid / validate_format / validate_file_size ---------------------------------------------------
-// @harness prop=C07 tier=quick timeout=900 role=archive-footer-hash-total
-// @bounds all 28 footer bytes symbolic (toc hash, 12 field bytes, 8 hash bytes); footer value assembled field by field as the parser does for the regular 8-byte hash size
+// ---- footer value: is_valid / validate_format ---------------------------------------------------------------------
+// Contract (after fix e9256cc): a footer is valid iff the stored hash has exactly the declared length, that length is
+// 1..=8, and the stored bytes equal MD5(12 field bytes || 8 zero bytes)[..declared].
+macro_rules! footer_hash_contract {
+    ($name:ident, $l:expr) => {
+        #[kani::proof]
+        #[kani::unwind(18)]
+        #[kani::stub(std::fmt::format, fmt_format_empty)]
+        #[kani::stub(cascette_crypto::md5::ContentKey::from_data, from_data_stub)]
+        fn $name() {
+            const L: usize = $l; // length of the stored hash vector (what the parser's first size read produced)
+            let b: [u8; 20 + L] = kani::any();
+            let j: usize = kani::any();
+            kani::assume(j < 8);
+            let mut toc_hash = [0u8; 8];
+            toc_hash.copy_from_slice(&b[0..8]);
+            let f = IndexFooter {
+                toc_hash,
+                version: b[8],
+                reserved: [b[9], b[10]],
+                page_size_kb: b[11],
+                offset_bytes: b[12],
+                size_bytes: b[13],
+                ekey_length: b[14],
+                footer_hash_bytes: b[15],
+                element_count: u32::from_le_bytes([b[16], b[17], b[18], b[19]]),
+                footer_hash: b[20..20 + L].to_vec(),
+            };
+            let fmt = f.validate_format();
+            let fmt_ok = fmt.is_ok();
+            std::mem::forget(fmt);
+            let spec_fmt = b[8] <= 1 && b[9] == 0 && b[10] == 0 && b[11] == 4 && (b[12] >= 4 && b[12] <= 6) && b[13] == 4 && b[14] >= 1 && b[14] <= 16 && b[15] == 8;
+            assert!(fmt_ok == spec_fmt, "validate_format differs from the documented footer constraints");
+            let valid = f.is_valid();
+            let want = expected_footer_hash(&b[8..20]);
+            let declared = b[15] as usize;
+            kani::cover!(valid || L == 0 || L > 8, "footer accepted (possible only for stored lengths 1..=8)");
+            kani::cover!(!valid, "footer rejected");
+            if valid {
+                assert!(declared == L && L >= 1 && L <= 8, "footer accepted although the stored hash length differs from the declared length / is not in 1..=8");
+                if j < L {
+                    assert!(b[20 + j] == want[j], "footer accepted although a hash byte differs from MD5(fields)[..declared]");
+                }
+            } else if declared == L && L >= 1 && L <= 8 {
+                let mut same = true;
+                let mut k = 0;
+                while k < L {
+                    same &= b[20 + k] == want[k];
+                    k += 1;
+                }
+                assert!(!same, "footer with the correct hash rejected");
+            }
+            std::mem::forget(f);
+        }
+    };
+}
+// @family prop=C07 tier=quick timeout=900 role=archive-footer-hash-total
+// @bounds all 20 footer bytes in front of the hash symbolic (toc hash, 12 field bytes incl. the declared hash size), stored hash vector of concrete length L (name: l<L>; 0, 4, 8, 16 = what the parser builds for a first size read of 0 / 4 / 8 / 16) with symbolic bytes
 // @encodes cascette_formats::archive::index::IndexFooter::is_valid, cascette_formats::archive::index::IndexFooter::calculate_footer_hash, cascette_formats::archive::index::IndexFooter::validate_format
 // @assumes MD5 (ContentKey::from_data) is an ideal hash: uninterpreted, injective on the inputs that occur; native replay uses the real MD5
-// @catches footer hash compared on fewer than 8 bytes, a field byte left out of / reordered in the hash input, element_count hashed big-endian, is_valid result inverted, format limits changed
-#[kani::proof]
-#[kani::unwind(10)]
-#[kani::stub(std::fmt::format, fmt_format_empty)]
-#[kani::stub(cascette_crypto::md5::ContentKey::from_data, from_data_stub)]
-fn c07_archive_footer_hash_total() {
-    let b: [u8; 28] = kani::any();
-    let j: usize = kani::any();
-    kani::assume(j < 8);
-    let mut toc_hash = [0u8; 8];
-    toc_hash.copy_from_slice(&b[0..8]);
-    let f = IndexFooter {
-        toc_hash,
-        version: b[8],
-        reserved: [b[9], b[10]],
-        page_size_kb: b[11],
-        offset_bytes: b[12],
-        size_bytes: b[13],
-        ekey_length: b[14],
-        footer_hash_bytes: b[15],
-        element_count: u32::from_le_bytes([b[16], b[17], b[18], b[19]]),
-        footer_hash: b[20..28].to_vec(),
-    };
-    let fmt = f.validate_format();
-    let fmt_ok = fmt.is_ok();
-    std::mem::forget(fmt);
-    let spec_fmt = b[8] <= 1 && b[9] == 0 && b[10] == 0 && b[11] == 4 && (b[12] >= 4 && b[12] <= 6) && b[13] == 4 && b[14] >= 1 && b[14] <= 16 && b[15] == 8;
-    assert!(fmt_ok == spec_fmt, "validate_format differs from the documented footer constraints");
-    if fmt_ok {
-        let valid = f.is_valid();
-        let want = expected_footer_hash(&b[8..20]);
-        kani::cover!(valid, "footer accepted");
-        kani::cover!(!valid, "footer rejected");
-        if valid {
-            assert!(b[20 + j] == want[j], "footer accepted although a hash byte differs from MD5(fields)[..8]");
-        } else {
-            let mut same = true;
-            let mut k = 0;
-            while k < 8 {
-                same &= b[20 + k] == want[k];
-                k += 1;
-            }
-            assert!(!same, "footer with the correct hash rejected");
-        }
-    }
-    std::mem::forget(f);
-}
+// @catches regression of fix e9256cc (hash compared on min(stored, declared) bytes: empty / partial hash accepted, 9..=255 panics), a field byte left out of / reordered in the hash input, element_count hashed big-endian, is_valid result inverted, format limits changed
+footer_hash_contract!(c07_archive_footer_hash_total, 8);
+footer_hash_contract!(c07_archive_footer_hash_total_l0, 0);
+footer_hash_contract!(c07_archive_footer_hash_total_l4, 4);
+footer_hash_contract!(c07_archive_footer_hash_total_l16, 16);
+// @end
 
 // @harness prop=C02 tier=quick timeout=900 role=archive-footer-is-valid-total
-// @bounds IndexFooter value with symbolic fields and a footer_hash vector of concrete length 16 (what the parser builds when the first hash-size read says 16), footer_hash_bytes field symbolic
+// @bounds IndexFooter value with symbolic fields and a footer_hash vector of concrete length 16 (what the parser builds when the first hash-size read says 16), footer_hash_bytes field symbolic (0..=255)
 // @encodes cascette_formats::archive::index::IndexFooter::is_valid
 // @assumes MD5 uninterpreted
-// @catches KF: is_valid slices the 8-byte computed hash with min(footer_hash.len(), footer_hash_bytes) and panics when both exceed 8
+// @catches regression of fix e9256cc: is_valid slicing the 8-byte computed hash with min(footer_hash.len(), footer_hash_bytes) panics when both exceed 8
 #[kani::proof]
-#[kani::unwind(10)]
+#[kani::unwind(18)]
 #[kani::stub(std::fmt::format, fmt_format_empty)]
 #[kani::stub(cascette_crypto::md5::ContentKey::from_data, from_data_stub)]
 fn c02_archive_footer_is_valid_long_hash() {
@@ -113,9 +127,9 @@ fn c02_archive_footer_is_valid_long_hash() {
         element_count: u32::from_le_bytes([b[16], b[17], b[18], b[19]]),
         footer_hash: b[20..36].to_vec(),
     };
-    let v = f.is_valid(); // KF: panics for footer_hash_bytes > 8
-    kani::cover!(v, "accepted");
-    assert!(!v || b[15] <= 8, "KF:archive_footer_is_valid_slice footer with a hash size above 8 accepted");
+    let v = f.is_valid();
+    kani::cover!(b[15] > 8 && !v, "declared size above 8 rejected");
+    assert!(!v, "footer with a 16-byte stored hash accepted (MD5 prefix is at most 8 bytes)");
     std::mem::forget(f);
 }
 
@@ -194,8 +208,8 @@ macro_rules! archive_parse {
 // @assumes MD5 ideal hash (uninterpreted, injective); std::fmt::format stubbed; allocator spy
 // @catches footer check skipped / after use, hash compared on a prefix; KF (hb0, hb4): the hash size is read twice (byte at len-13 sizes the footer and the hash vector, the field inside the re-positioned footer is the one validated): with 0 the index is accepted without any hash comparison, with 1..7 only that many bytes are compared
 archive_parse!(c07_archive_index_parse_hb8, 28, 8, true, "accepted footer hash is not 8 bytes long");
-archive_parse!(c07_archive_index_parse_hb0, 28, 0, true, "KF:archive_footer_hash_size_disagree index accepted with a footer hash shorter than 8 bytes (check bypassed)");
-archive_parse!(c07_archive_index_parse_hb4, 28, 4, true, "KF:archive_footer_hash_size_disagree index accepted with a footer hash shorter than 8 bytes (check bypassed)");
+archive_parse!(c07_archive_index_parse_hb0, 28, 0, true, "index accepted with a footer hash shorter than 8 bytes (check bypassed)");
+archive_parse!(c07_archive_index_parse_hb4, 28, 4, true, "index accepted with a footer hash shorter than 8 bytes (check bypassed)");
 // @end
 // NOT REGISTERED (same reason)
 // family prop=C02 role=archive-index-parse-total
